@@ -295,6 +295,41 @@ func c05r4(c *core.Ctx) {
 	}
 	// first failure is fatal
 	fm := buildFrameModel(dec)
+	// every stream read's error is looked at (a read whose error is ignored hands zero bytes to the AEAD or, worse, to the caller)
+	for k, r := range fm.reads {
+		tested := false
+		var visit func(v ssa.Value, d int)
+		visit = func(v ssa.Value, d int) {
+			if d == 0 || v == nil || v.Referrers() == nil {
+				return
+			}
+			for _, u := range *v.Referrers() {
+				switch x := u.(type) {
+				case *ssa.BinOp:
+					if (x.Op == token.NEQ || x.Op == token.EQL) && (core.IsNilConst(x.X) || core.IsNilConst(x.Y)) {
+						for _, uu := range *x.Referrers() {
+							if _, isIf := uu.(*ssa.If); isIf {
+								tested = true
+							}
+						}
+					}
+				case *ssa.Phi:
+					visit(x, d-1)
+				case *ssa.Store:
+					// spilled into a variable (named result, captured): its loads
+					if a, ok := x.Addr.(*ssa.Alloc); ok {
+						for _, rr := range *a.Referrers() {
+							if ld, ok := rr.(*ssa.UnOp); ok && ld.Op == token.MUL {
+								visit(ld, d-1)
+							}
+						}
+					}
+				}
+			}
+		}
+		visit(r.errv, 4)
+		c.Check(tested, fmt.Sprintf("read-error-checked@%s#%d", fname(dec), k+1), r.call.Pos(), "the error of the stream read is tested against nil", "the error of a stream read is never tested: a short or failed read goes unnoticed and zero bytes are processed as frame data")
+	}
 	isFail := func(v ssa.Value) (call ssa.Instruction, isLengthRead bool) {
 		for _, src := range core.Sources(v) {
 			var ci ssa.Instruction
@@ -320,7 +355,7 @@ func c05r4(c *core.Ctx) {
 		}
 		return nil, false
 	}
-	total, bad := 0, 0
+	total, bad, nilnil := 0, 0, 0
 	okEnum := core.EnumPaths(dec, 2, 200000, func(pa core.Path) {
 		total++
 		failed := false
@@ -376,6 +411,17 @@ func c05r4(c *core.Ctx) {
 				}
 			}
 		}
+		// whatever the path: a nil reader is never handed back with a nil error (the caller would use the reader)
+		if r := pa.Returns(); r != nil && len(res(r)) == 2 && core.IsNilConst(res(r)[0]) {
+			ev := pa.ResolveAt(len(pa)-1, res(r)[1])
+			if !provablyNonNil(pa, ev) && !provablyNonNil(pa, res(r)[1]) {
+				if nilnil == 0 {
+					c.BadPath("nil-reader-with-nil-error@"+fname(dec), posOf(r), pa.Describe(p),
+						"a path returns a nil reader together with an error that is not known to be non-nil on that path (the error test was removed or forced): the caller reads from a nil reader")
+				}
+				nilnil++
+			}
+		}
 		if !failed {
 			return
 		}
@@ -399,7 +445,7 @@ func c05r4(c *core.Ctx) {
 	c.Count("paths_enumerated", total)
 	if !okEnum {
 		c.Undecided("failure-fatal@"+fname(dec), dec.Pos(), "too many paths")
-	} else if bad == 0 {
+	} else if bad == 0 && nilnil == 0 {
 		c.OK("failure-fatal@"+fname(dec), dec.Pos(), "on all %d paths the first failed read/open ends the call with (nil, error); only EOF on the length read ends a message", total)
 	}
 	// DecryptedRead: an error from Decrypt releases nothing
